@@ -46,6 +46,13 @@ fn elog(id: u16) {
     }
 }
 pub use crate::alloc::Bag;
+// collect types spelled as bare paths (nothing in the type tells a parser where it ends)
+pub type VecU = Vec<u32>;
+pub type OVec = Option<Vec<u32>>;
+pub type RVec = Result<Vec<u32>, u8>;
+pub type BagU = Bag<u32>;
+pub type OBag = Option<Bag<u32>>;
+pub type RBag = Result<Bag<u32>, u8>;
 static CLONES: std::sync::atomic::AtomicUsize = std::sync::atomic::AtomicUsize::new(0);
 /// A value whose `Clone` is observable (C19: nothing the macro handles is ever cloned).
 pub struct CountClone(pub u32);
